@@ -354,3 +354,108 @@ Example nonvacuous12 :
   run_C12 w12_refused = [1; 0; 1; 0]%Z /\ spec_C12 w12_refused (run_C12 w12_refused) = true /\
   run_C12 (CJson [fld 32 TString false None; fld 33 TFloat true None] [(32, LStr false None); (33, LInt)]) = [1; 1; 4; 3]%Z.
 Proof. repeat split; vm_compute; reflexivity. Qed.
+
+(* ------------------------------------------------------------------ CWrite with references of any authors:
+   the only possible disagreement is class 3 *)
+Local Close Scope N_scope.
+Lemma numbered_ge {A} (l : list A) : forall n p, In p (numbered n l) -> (n <= fst p)%N.
+Proof.
+  induction l as [|a t IH]; simpl; intros n p H; [contradiction|]. destruct H as [<-|H]; [simpl; lia|].
+  apply IH in H. lia.
+Qed.
+Lemma numbered_fst_inj {A} (l : list A) : forall n p q, In p (numbered n l) -> In q (numbered n l) -> fst p = fst q -> p = q.
+Proof.
+  induction l as [|a t IH]; simpl; intros n p q Hp Hq He; [contradiction|].
+  destruct Hp as [<-|Hp], Hq as [<-|Hq].
+  - reflexivity.
+  - apply numbered_ge in Hq. simpl in He. lia.
+  - apply numbered_ge in Hp. simpl in He. lia.
+  - eapply IH; eauto.
+Qed.
+Lemma count_map {A B} (p : B -> bool) (f : A -> B) l : count p (map f l) = count (fun x => p (f x)) l.
+Proof. unfold count. f_equal. induction l as [|a t IH]; simpl; [reflexivity|]. destruct (p (f a)); simpl; rewrite IH; reflexivity. Qed.
+Lemma count_le_in {A} (p q : A -> bool) l : (forall x, In x l -> p x = true -> q x = true) -> count p l <= count q l.
+Proof.
+  unfold count. intros H. apply inj_le. induction l as [|a t IH]; simpl; [lia|].
+  assert (IH' : (length (filter p t) <= length (filter q t))%nat) by (apply IH; intros; apply H; simpl; auto).
+  destruct (p a) eqn:Pa.
+  - rewrite (H a (or_introl eq_refl) Pa). simpl. lia.
+  - destruct (q a); simpl; lia.
+Qed.
+Lemma count_le_length {A} (p : A -> bool) l : count p l <= Z.of_nat (length l).
+Proof. unfold count. apply inj_le. induction l as [|a t IH]; simpl; [lia|]. destruct (p a); simpl; lia. Qed.
+Lemma count_numbered_snd {A} (p : A -> bool) (l : list A) : forall n, count (fun x => p (snd x)) (numbered n l) = count p l.
+Proof.
+  unfold count. induction l as [|a t IH]; intros n; simpl; [reflexivity|]. specialize (IH (N.succ n)).
+  destruct (p a); simpl; lia.
+Qed.
+
+Lemma own_tombstones_accepted defs me h rm rid r :
+  find_room (build_rooms defs) rid = Some r -> can r me (h_ent h) (h_date h) MutateSelf = true ->
+  count (fun k => N.eqb k me) rm <=
+  count (edel_ok (build_rooms defs) (peer_store h rm)) (map (ref_tombstone me rid (h_date h)) (s_edges (peer_store h rm))).
+Proof.
+  intros Er Hself. unfold peer_store at 2. cbn [s_edges]. rewrite !count_map.
+  rewrite <- (count_numbered_snd (fun k => N.eqb k me) rm 0%N).
+  apply count_le_in. intros p Hp Hmine.
+  unfold edel_ok, ref_tombstone. cbn [ed_ent ed_room ed_author ed_date stored_ref e_ent]. rewrite Er.
+  match goal with |- can r me _ _ ?t = true => assert (Ht : t = MutateSelf) end.
+  { destruct (find _ _) as [ex|] eqn:Ef; [|reflexivity]. apply find_some in Ef. destruct Ef as [Hin Hhit].
+    unfold peer_store in Hin. cbn [s_edges] in Hin. apply in_map_iff in Hin. destruct Hin as [q [<- Hq]].
+    unfold edge_hit in Hhit. cbn [ed_src ed_ent ed_label ed_dest ed_cdate stored_ref e_src e_ent e_label e_dest e_cdate] in Hhit.
+    apply andb_prop in Hhit. destruct Hhit as [Hhit _]. apply andb_prop in Hhit. destruct Hhit as [_ Hdest].
+    apply N.eqb_eq in Hdest. assert (Hfst : fst q = fst p) by lia.
+    rewrite (numbered_fst_inj rm 0%N q p Hq Hp Hfst). cbn [stored_ref e_author]. rewrite Hmine. reflexivity. }
+  rewrite Ht. exact Hself.
+Qed.
+
+Theorem write_outside_known defs dm me h nadd rm v :
+  h_kind h = KNormal -> peer_knows dm (h_ent h) = true ->
+  In v (violations12 (CWrite defs dm me h nadd rm) (run_C12 (CWrite defs dm me h nadd rm))) -> v = 3.
+Proof.
+  intros Hk Hp. unfold run_C12, violations12, write_sends. rewrite Hk.
+  destruct (h_has_node h) eqn:Hn; [|contradiction].
+  destruct (h_room h) as [rid|] eqn:Hr; [|contradiction].
+  rewrite (accept_sent_row defs dm me h rm rid Hr Hp).
+  pose proof (node_agree me (build_rooms defs) h rid Hk Hn Hr) as Hag.
+  pose proof (validate_entity_single me (build_rooms defs) h) as Hsingle.
+  destruct (validate_entity me (build_rooms defs) (MEnt h [])) eqn:Hv; cbn [verdict_code Z.eqb].
+  - assert (Hc : check_head me (build_rooms defs) h = None) by (apply Hsingle; reflexivity).
+    assert (Hval : validate_node (build_rooms defs) (sent_row me h) (old_room_of h) (old_author_of h) = true) by (apply Hag; exact Hc).
+    rewrite Hval. cbn [zb Z.eqb andb].
+    destruct (head_ok_can defs me h rid Hk Hn Hr Hc) as [r [Er Hself]]. rewrite Er.
+    rewrite count_all.
+    2:{ apply forallb_forall. intros x Hx. apply in_map_iff in Hx. destruct Hx as [i [<- _]].
+        unfold edge_ok, added_ref. cbn [e_ent e_author e_cdate]. exact Hself. }
+    rewrite map_length, length_upto, N_nat_Z, Z.eqb_refl. cbn [andb].
+    pose proof (own_tombstones_accepted defs me h rm rid r Er Hself) as Hown.
+    set (t := count (edel_ok (build_rooms defs) (peer_store h rm)) (map (ref_tombstone me rid (h_date h)) (s_edges (peer_store h rm)))) in *.
+    destruct (Z.eqb t (Z.of_nat (length rm))) eqn:Et; [contradiction|].
+    assert (Hle : count (fun k => N.eqb k me) rm <=? t = true) by (apply Z.leb_le; exact Hown).
+    rewrite Hle.
+    destruct (existsb (fun k => negb (N.eqb k me)) rm) eqn:Ex; cbn [andb].
+    + intros [<-|[]]. reflexivity.
+    + exfalso. apply Z.eqb_neq in Et. apply Et.
+      assert (Hall : forallb (fun k => N.eqb k me) rm = true).
+      { apply forallb_forall. intros k Hk'. destruct (N.eqb k me) eqn:E; [reflexivity|].
+        assert (existsb (fun k0 => negb (N.eqb k0 me)) rm = true) by (apply existsb_exists; exists k; rewrite E; auto). congruence. }
+      rewrite (count_all _ _ Hall) in Hown.
+      assert (Hub : t <= Z.of_nat (length rm)).
+      { unfold t. eapply Z.le_trans; [apply count_le_length|]. unfold peer_store. cbn [s_edges]. rewrite !map_length, length_numbered. lia. }
+      lia.
+  - assert (Hnv : validate_node (build_rooms defs) (sent_row me h) (old_room_of h) (old_author_of h) = false).
+    { apply not_true_is_false. intros E. apply Hag in E. apply Hsingle in E. congruence. }
+    rewrite Hnv. cbn. contradiction.
+  - assert (Hnv : validate_node (build_rooms defs) (sent_row me h) (old_room_of h) (old_author_of h) = false).
+    { apply not_true_is_false. intros E. apply Hag in E. apply Hsingle in E. congruence. }
+    rewrite Hnv. cbn. contradiction.
+  - assert (Hnv : validate_node (build_rooms defs) (sent_row me h) (old_room_of h) (old_author_of h) = false).
+    { apply not_true_is_false. intros E. apply Hag in E. apply Hsingle in E. congruence. }
+    rewrite Hnv. cbn. contradiction.
+  - assert (Hnv : validate_node (build_rooms defs) (sent_row me h) (old_room_of h) (old_author_of h) = false).
+    { apply not_true_is_false. intros E. apply Hag in E. apply Hsingle in E. congruence. }
+    rewrite Hnv. cbn. contradiction.
+  - assert (Hnv : validate_node (build_rooms defs) (sent_row me h) (old_room_of h) (old_author_of h) = false).
+    { apply not_true_is_false. intros E. apply Hag in E. apply Hsingle in E. congruence. }
+    rewrite Hnv. cbn. contradiction.
+Qed.
